@@ -40,6 +40,12 @@ def make_driver(cfg):
             fm = M.FunctorMap(f, cfg.workers)
             with fm:
                 suspended = []
+                pre = {}
+                if any(len(c) > 3 and c[3] == "precreate" for c in cfg.calls):
+                    # all call generators are created first (e.g. for itertools.chain), then consumed one after another
+                    for k, call in enumerate(cfg.calls):
+                        d0 = data_of(k, call[1])
+                        pre[k] = fm(vmp.LazyInput(d0) if call[0] == "lazy" else d0, call[2])
                 for k, call in enumerate(cfg.calls):
                     ikind, n, cs = call[:3]
                     exact = len(call) > 3 and call[3] == "exact"
@@ -55,7 +61,7 @@ def make_driver(cfg):
                         for _ in range(n):
                             rec["yielded"].append(next(gen))
                     else:
-                        for v in fm(inp, cs):
+                        for v in (pre[k] if k in pre else fm(inp, cs)):
                             rec["yielded"].append(v)
                     rec["finished"] = True
                     rec["leftover"] = leftovers(s)
@@ -145,6 +151,7 @@ def plan_for(tier):
     plan.append((Cfg("FM2[w1,n1;n0;n3cs2]", "fmap", 1, [("list", 1, 1), ("list", 0, 1), ("list", 3, 2)]), b, 1, None))
     plan.append((Cfg("FM2x[w2,n2 exact;n2]", "fmap", 2, [("list", 2, 1, "exact"), ("list", 2, 1)]), b, 1, None))
     plan.append((Cfg("FM2x[w1,n3cs2 exact;n1;n2]", "fmap", 1, [("list", 3, 2, "exact"), ("list", 1, 1), ("list", 2, 1, "exact")]), b, 1, None))
+    plan.append((Cfg("FM2p[w2,n2;n3cs2 precreated]", "fmap", 2, [("list", 2, 1, "precreate"), ("list", 3, 2, "precreate")]), b, 1, None))
     plan.append((Cfg("FM[cpu,n2]", "fmap", -1, [("list", 2, 1)], cpu_count=2), 2, 1, None))
     # mul_p_map: W x n, consecutive calls on the shared class-level queues
     plan.append((Cfg("MP[w1,n2]", "mulp", 1, [("list", 2)], cpu_count=1), None if not q else 3, 1, None))
